@@ -192,7 +192,7 @@ type ArgId = (i16, u8, u8);
 /// resolution in the caller's scope. Used only to *name* the defect class of a failure.
 #[derive(Clone, Copy, Debug, PartialEq, Eq, PartialOrd, Ord, Hash)]
 enum Feat {
-    LateBound,   // k=$n, the caller has no n, but a deeper invocation binds n before k is used
+    LateBound,   // k=$n, the caller has no (resolvable) n, but a deeper invocation binds n before k is used
     Same,        // k=$k   (forwarding under the same name)
     Asc,         // k=$n with n sorting after k
     ParenShadow, // k=(d) on an invocation while the caller has a k
@@ -221,7 +221,8 @@ struct EnvVal {
     flag: bool,
     id: u32,
     feats: Vec<(Feat, ArgId)>,
-    deps: Vec<(String, Option<u32>, ArgId)>,
+    /// (name looked up in the caller's scope, binding found there, argument, that binding was unresolvable)
+    deps: Vec<(String, Option<u32>, ArgId, bool)>,
     hops: u8,      // number of invocation arguments in binding form the value passed through
     origin: usize, // nesting depth of the invocation that supplied the text
     ctx_default: bool,
@@ -419,7 +420,7 @@ impl<'a> Expander<'a> {
                                 v.feats.push((Feat::Default2, aid));
                                 v.murky |= e.text.is_none();
                             }
-                            v.deps.push((n.clone(), Some(e.id), aid));
+                            v.deps.push((n.clone(), Some(e.id), aid, e.text.is_none()));
                             v
                         }
                         None => {
@@ -439,7 +440,7 @@ impl<'a> Expander<'a> {
                                 }
                             };
                             v.hops = 1;
-                            v.deps.push((n.clone(), None, aid));
+                            v.deps.push((n.clone(), None, aid, true));
                             v
                         }
                     }
@@ -477,9 +478,9 @@ impl<'a> Expander<'a> {
             self.out.unsafe_feats.insert((*f, *aid));
             unsafe_here = true;
         }
-        for (n, id, aid) in &e.deps {
+        for (n, id, aid, unresolvable) in &e.deps {
             if env.get(n).map(|x| x.id) != *id {
-                self.out.unsafe_feats.insert((if id.is_none() { Feat::LateBound } else { Feat::Shadow }, *aid));
+                self.out.unsafe_feats.insert((if *unresolvable { Feat::LateBound } else { Feat::Shadow }, *aid));
                 unsafe_here = true;
             }
         }
@@ -1569,7 +1570,7 @@ fn main() {
         check,
     );
 
-    let n = run.scale(60_000, 1_500_000);
+    let n = run.scale(40_000, 800_000);
     run.section(
         "equivalence",
         "random acyclic libraries (nesting depth 0..10, single-operator and pipeline bodies over helmert/utm/tmerc/cart/addone/built-in macros, every binding form on operator parameters, names drawn from a pool unrelated to key order, inv infix/suffix on invocations at every level, invocation alone or inside a pipeline, 3 contexts); invocation arguments in binding form are kept only outside the registered class nested-arg-* (rewritten to literals otherwise, counted as excluded_known); non-trivial = instantiates and a $/default binding or visible caller argument is resolved through >= 1 nesting level; distinct by library + invocation text",
@@ -1578,7 +1579,7 @@ fn main() {
         check,
     );
 
-    let n = run.scale(30_000, 600_000);
+    let n = run.scale(20_000, 400_000);
     run.section(
         "arg-forwarding",
         "as 'equivalence' (depth 0..6) but invocation arguments at every level use all binding forms with names independent of lexical order (forwarding under the same, an earlier or a later name; defaults at the second hop; re-bound names)",
@@ -1587,7 +1588,7 @@ fn main() {
         check,
     );
 
-    let n = run.scale(20_000, 400_000);
+    let n = run.scale(12_000, 240_000);
     run.section(
         "inv-position",
         "as 'equivalence' (depth 0..6) with literal invocation arguments and inv as prefix / infix / suffix / absent (25% each) on every macro invocation, including the inverted twin of the outermost one",
@@ -1598,7 +1599,7 @@ fn main() {
 
     // NB: random sections record the in-flight case (enumerations do not), so this one runs before
     // the enumerated chains and cycles: a stack overflow is then attributed to its case
-    let n = run.scale(20_000, 400_000);
+    let n = run.scale(15_000, 300_000);
     run.section(
         "graphs",
         "random resource graphs of 1..10 macros: bodies of 1..3 steps referring to arbitrary macros (self, backwards, forwards), a forced cycle of length 1..8 in 80% of the cases, missing macros, self-forwarding arguments, inv; reachable cycle or missing macro => Err; otherwise (finite expansion) the equivalence oracle; never a panic, abort or hang; 1 in 16 cases is a pure cycle of section 'cycles' (this section records its in-flight case, so a stack overflow is attributed); non-trivial = a cycle is reachable from the invocation",
